@@ -708,6 +708,11 @@ class Interp:
         return tuple(self.eval(e, fr) for e in node.elts)
 
     def e_List(self, node, fr):
+        hook = getattr(self.registry, "empty_list_model", None) if self.registry is not None else None
+        if hook is not None and not node.elts:
+            r = hook(self, node)  # the harness may abstract a list built by the function under contract
+            if r is not None:
+                return r
         return [self.eval(e, fr) for e in node.elts]
 
     def e_Set(self, node, fr):
